@@ -136,6 +136,35 @@ def tail_kind(h, ok_stmt):
         else: kinds.add("other"); detail.append(k)
     return kinds, detail
 
+def path_classes(h, target_bb):
+    """classes ('eof', 'incomplete') that every feasible path from a read_until to `target_bb` (within one iteration) establishes;
+    a path that establishes either counts for both questions the caller asks ("eof or incomplete")"""
+    from vlib.cfg import enumerate_paths
+    body, cfg, du = h.body, h.cfg, h.du
+    ru_blocks = {t.bb for t in h.read_untils}
+    common = None
+    for t in h.read_untils:
+        if t.target is None: continue
+        hit = [False]
+        # seed: the read succeeded (its `?` continues)
+        paths = enumerate_paths(cfg, t.target, lambda blk: blk.idx == target_bb or blk.term.kind == "return" or blk.idx in ru_blocks, du=du,
+                                env0={t.dest.l: ("var", 0, None)} if t.dest is not None and not t.dest.p else None, on_limit=lambda: hit.__setitem__(0, True))
+        if hit[0]: return set()
+        for p in paths:
+            if p[-1] != target_bb: continue
+            cl = set()
+            for a, b in zip(p, p[1:]):
+                if body.blocks[a].term.kind != "switch": continue
+                for lab, d in cfg.succ[a]:
+                    if d == b:
+                        c = classify_edge(h, (a, lab, b))
+                        if c: cl.add(c)
+            common = cl if common is None else (common & cl if (common & cl) else ({"eof-or-incomplete"} if (cl & {"eof", "incomplete"}) and (common & {"eof", "incomplete", "eof-or-incomplete"}) else set()))
+    if not common: return set()
+    if "eof-or-incomplete" in common: return {"incomplete"}          # every path passed one of the two tests
+    return common
+
+
 def check_tails(cx, rule, prop_filter):
     """C01.R1 / C02.R1. prop_filter(after_dispatch: bool) -> True when this property owns the instance"""
     h = analyse_handle(cx)
@@ -148,6 +177,10 @@ def check_tails(cx, rule, prop_filter):
         kinds, detail = tail_kind(h, s)
         doms = dominating_edges(cfg, s.bb)
         classes = {classify_edge(h, e) for e in doms} - {None}
+        if not (classes & {"eof", "incomplete"}) and "readbuf" in kinds or ("fresh-empty" in kinds and "eof" not in classes):
+            # the state may have been decided earlier and carried in a value (an enum returned by a reading helper): ask every
+            # feasible path from the read to this return which of the two tests it passed
+            classes |= path_classes(h, s.bb)
         # reachable from a dispatch in the same iteration (without passing read_until again)?
         after_dispatch = any(s.bb in cfg.reach(d, blocked_nodes=ru_blocks - {d}) for d in disp_blocks)
         if not prop_filter(after_dispatch): continue
